@@ -46,7 +46,7 @@ func main() {
 			os.Exit(2)
 		}
 		run := ev.NewRun(c.Property, c.Level)
-		c.Run(run)
+		run.Guard(func() { c.Run(run) })
 		os.Exit(run.Finish())
 	}
 }
